@@ -93,12 +93,16 @@ Proof.
   - cbn [some_b] in cq.
     assert (Hmod : forall w2, w_mod (match r with Some t => set_fes w2 (fes_add t (EvRestart m) (w_fes w2)) | None => w2 end) m = w_mod w2 m)
       by (intros w2; destruct r; reflexivity).
-    cbn [inc bud hnd nw set_nw]. rewrite Hmod. cbn [w_mod set_fin set_mod]. rewrite N.eqb_refl. cbn [inc]. split; [|split; [|split]].
-    + unfold TI. rewrite Hmod. cbn [w_mod set_fin set_mod]. rewrite N.eqb_refl. cbn [ready timers shut]. repeat split; constructor.
-    + apply Forall_app. split; [exact cg|]. apply Forall_app. split; [apply sys_tag|constructor; [exact I|constructor]].
-    + rewrite !count_resets_app, Hnr, (count_resets_none m _ (cancelled_no_reset m m _ _)).
+    assert (Hre : forall (b : bool) w2 e, w_mod (if b then set_err w2 e else w2) m = w_mod w2 m) by (intros [] ? ?; reflexivity).
+    assert (Hrp : forall c0, count_resets m (rpanic c0 m) = 0%nat /\ existsb is_req (rpanic c0 m) = false /\ Forall (tag_ok (inc (w_mod w m))) (rpanic c0 m))
+      by (intros c0; unfold rpanic; destruct (c_rsend c0); repeat split; repeat constructor).
+    destruct (Hrp (cfg sc m)) as (Hr1 & Hr2 & Hr3).
+    cbn [inc bud hnd nw set_nw]. rewrite Hre, Hmod. cbn [w_mod set_fin set_mod]. rewrite N.eqb_refl. cbn [inc]. split; [|split; [|split]].
+    + unfold TI. rewrite Hre, Hmod. cbn [w_mod set_fin set_mod]. rewrite N.eqb_refl. cbn [ready timers shut]. repeat split; constructor.
+    + apply Forall_app. split; [exact cg|]. apply Forall_app. split; [apply sys_tag|constructor; [exact I|exact Hr3]].
+    + rewrite !count_resets_app, Hnr, (count_resets_none m _ (cancelled_no_reset m m _ _)), Hr1.
       unfold count_resets. cbn [filter is_reset]. rewrite N.eqb_refl. cbn [length]. rewrite ci. lia.
-    + rewrite !count_resets_app, Hnr, (count_resets_none m _ (cancelled_no_reset m m _ _)).
+    + rewrite !count_resets_app, Hnr, (count_resets_none m _ (cancelled_no_reset m m _ _)), Hr1.
       unfold count_resets. cbn [filter is_reset]. rewrite N.eqb_refl. cbn [length].
       rewrite existsb_app, <- cq. reflexivity.
   - cbn [some_b] in cq. rewrite app_nil_r. split; [|split; [|split]].
@@ -150,13 +154,13 @@ Qed.
 Lemma act_st_sample p l t k : act_st p (l ++ [ISample t k]) <> None <-> act_st p l <> None.
 Proof. rewrite act_st_app. destruct (act_st p l); cbn [act_st]; split; intros H; try exact H; discriminate. Qed.
 
-Lemma act_st_sys_tail p l c m x t i : act_st p l <> None -> act_st p (l ++ cancelled m c x ++ [IReset m t i]) <> None.
+Lemma act_st_sys_tail p l c m x t i : act_st p l <> None -> act_st p (l ++ cancelled m c x ++ [IReset m t i] ++ rpanic c m) <> None.
 Proof.
   rewrite act_st_app. destruct (act_st p l) as [q|]; [intros _|intros H; exact H].
   rewrite act_st_app. assert (E : act_st q (cancelled m c x) = Some q).
   { pose proof (cancelled_in m c x) as Hin. induction (cancelled m c x) as [|i0 l0 IH]; [reflexivity|].
     destruct (Hin i0 (or_introl eq_refl)) as [(id & ->)|(id & ->)]; cbn [act_st]; apply IH; intros i1 H1; apply Hin; right; exact H1. }
-  rewrite E. discriminate.
+  rewrite E. unfold rpanic. destruct (c_rsend c); discriminate.
 Qed.
 
 (* the items of an event split into the callback's log and the runtime's records *)
@@ -368,7 +372,7 @@ Proof.
   assert (Hn' : forall m c, ~ In (IPanic m 0 c) l) by (intros m0 c1 C; apply (Hn m0 c1); right; exact C).
   destruct Hin as [->|Hin].
   - cbn [act_st] in Hs. destruct a; [reflexivity|]. cbn [orb] in Hs. contradiction.
-  - destruct i as [m0 c0 t0 a0| | | | | |m0 who cc| | | | | |]; cbn [act_st] in Hs; try (eapply IH; eauto; fail).
+  - destruct i as [m0 c0 t0 a0| | | | | |m0 who cc| | | | | | |]; cbn [act_st] in Hs; try (eapply IH; eauto; fail).
     + destruct a0; cbn [orb] in Hs; [eapply IH; eauto|contradiction].
     + destruct who; [exfalso; apply (Hn m0 cc); left; reflexivity|eapply IH; eauto].
 Qed.
